@@ -102,6 +102,12 @@ func rexpRun(in *bufio.Scanner, out *bufio.Writer) {
 		}
 		rec := map[string]interface{}{"id": c.ID}
 		validate.VerifResetRegexpCache()
+		pvalid := make([]bool, len(c.Ops)) // does Go's regexp accept the pattern of each operation (private compilation)
+		for i, op := range c.Ops {
+			_, err := regexp.Compile(op.P)
+			pvalid[i] = err == nil
+		}
+		rec["pattern_valid"] = pvalid
 		var wrong []map[string]interface{}
 		var keyErrs []string
 		checkKeys := func() ([]string, bool) {
